@@ -104,7 +104,8 @@ func (m Model) Run(lines []string) ([]string, error) {
 	if len(lines) == 0 {
 		return nil, nil
 	}
-	cmd := exec.Command(m.path)
+	// the extracted functions are not tail recursive: give them a large stack
+	cmd := exec.Command("sh", "-c", "ulimit -s unlimited 2>/dev/null || ulimit -s 1000000 2>/dev/null; exec \"$0\"", m.path)
 	cmd.Stdin = strings.NewReader(strings.Join(lines, "\n") + "\n")
 	var out bytes.Buffer
 	cmd.Stdout = &out
